@@ -142,6 +142,11 @@ func parent(casesPath, outPath string, nat bool) {
 	var cases []Case
 	vh.ReadJSON(casesPath, &cases)
 	os.Remove(outPath)
+	base := outPath + ".dirs"
+	if err := os.MkdirAll(base, 0o755); err != nil {
+		vh.Die("mkdir %s: %v", base, err)
+	}
+	defer os.RemoveAll(base)
 	ci, ti := 0, -1 // ti = -1: start with the load of case ci
 	self, _ := os.Executable()
 	for ci < len(cases) {
@@ -150,16 +155,19 @@ func parent(casesPath, outPath string, nat bool) {
 			args = append(args, "natural")
 		}
 		cmd := exec.Command(self, args...)
-		cmd.Env = os.Environ()
+		cmd.Env = append(os.Environ(), "C04_TMP="+base)
 		var stderr strings.Builder
 		cmd.Stderr = &limitedWriter{b: &stderr, max: 4000}
 		err := cmd.Run()
 		if err == nil {
 			return
 		}
+		os.RemoveAll(base) // what a killed child left behind
+		os.MkdirAll(base, 0o755)
 		// the child died: find the operation that was in progress
 		b, open := lastBegin(outPath)
 		if !open {
+			os.RemoveAll(base)
 			vh.Die("child failed without an operation in progress: %v\n%s", err, stderr.String())
 		}
 		detail := firstLines(stderr.String(), 3)
@@ -272,7 +280,8 @@ func child(casesPath, outPath string, ci0, ti0 int) {
 	}
 	w := &writer{f}
 	verifhook.SetSink(sink)
-	tmp, err := os.MkdirTemp("", "c04-")
+	// configuration directories live next to the output file (the run's scratch area); the parent removes them
+	tmp, err := os.MkdirTemp(os.Getenv("C04_TMP"), "c04-")
 	if err != nil {
 		vh.Die("tmp: %v", err)
 	}
@@ -397,13 +406,34 @@ func guarded(f func() error) (outcome, msg string) {
 				outcome, msg = "overlong", "processor executions exceeded the executor limit"
 				return
 			}
-			outcome, msg = "panic", fmt.Sprint(r)
+			outcome, msg = "panic", fmt.Sprint(r)+" @ "+panicSite()
 		}
 	}()
 	if err := f(); err != nil {
 		return "error", err.Error()
 	}
 	return "ok", ""
+}
+
+// panicSite names the first frames of the panicking goroutine inside the engine (file:line), for the witness.
+func panicSite() string {
+	var out []string
+	for _, l := range strings.Split(string(debug.Stack()), "\n") {
+		l = strings.TrimSpace(l)
+		if strings.Contains(l, "lunar-engine/") && strings.Contains(l, ".go:") {
+			if i := strings.Index(l, "lunar-engine/"); i >= 0 {
+				l = l[i+len("lunar-engine/"):]
+			}
+			if j := strings.Index(l, " "); j >= 0 {
+				l = l[:j]
+			}
+			out = append(out, l)
+			if len(out) == 3 {
+				break
+			}
+		}
+	}
+	return strings.Join(out, " < ")
 }
 
 func writeFiles(dir string, files map[string]string) {
